@@ -196,6 +196,35 @@ def main() -> int:
         if graph != b:
             spec_failures.append({"suite": "tsql-combination", "script": script, "script_graph": graph[:1500], "combination_graph": b[:1500]})
 
+    # ---- scripts of top-level queries (SELECT, UNION, SELECT ... INTO) and DML mixed, under dialects that have SELECT INTO ----
+    q_pool = ["select a from t1", "select b into t3 from t2", "select c, d into t4 from t3 join t1 on 1 = 1", "insert into t5 select * from t4",
+              "select a from t1 union all select b from t2", "select x.k from (select k from t6) x", "select * from t7",
+              "select e into t8 from (select e from t9) y", "create table t10 as select a from t1", "update t3 set b = 1"]
+    dist["query_scripts"] = 0
+    for dlc in ("tsql", "postgres"):
+        for i in range(40 if quick else 400):
+            stmts = [r.choice(q_pool) for _ in range(r.randint(2, 5))]
+            script = r.choice([";\n", "; ", ";\n-- c;\n"]).join(stmts)
+            ck.count()
+            dist["query_scripts"] += 1
+            try:
+                lr = LineageRunner(script, dialect=dlc)
+                lr._eval()
+                graph = implgraph.s_graph(lr._sql_holder.graph, canon=True)
+                holders = []
+                for st in stmts:
+                    one = LineageRunner(st, dialect=dlc)
+                    one._eval()
+                    holders += one._stmt_holders
+                b = implgraph.s_graph(SQLLineageHolder.of(DummyMetaDataProvider(), *holders).graph, canon=True)
+            except Exception as e:
+                spec_failures.append({"suite": "query-scripts", "dialect": dlc, "script": script, "impl": "ERR:" + type(e).__name__, "spec": "analysable"})
+                continue
+            ck.nontriv((dlc, script))
+            if graph != b:
+                spec_failures.append({"suite": "query-scripts-combination", "dialect": dlc, "script": script, "script_graph": graph[:1500], "combination_graph": b[:1500],
+                                      "spec": "script lineage equals the combination of each statement's lineage analysed on its own"})
+
     # ---- T4: model of the statement loop on the parser's trees ----------------------------------------
     recs = gen_scripts.gen_records(r, 80 if quick else 800)
     for x in t2tie.run_scripts(recs):
